@@ -587,9 +587,9 @@ fn same_entry(x: &(String, Keys, Option<Bytes>), u: Upd) -> bool {
     }
 }
 
-/// Arbitrary session overlay for name "f": entries anywhere in the first `n` slots, distinct keys,
-/// values or tombstones; or no entry for the name.
-fn any_current(n: usize, lvl: &mut Level) -> Outer {
+/// Arbitrary per-name overlay map: entries anywhere in the first `n` slots, distinct keys,
+/// values or tombstones.
+fn any_inner(n: usize, lvl: &mut Level) -> Inner {
     let mut slots: [Option<(Keys, Option<Bytes>)>; CAP] = [const { None }; CAP];
     let mut j = 0;
     while j < n {
@@ -607,7 +607,12 @@ fn any_current(n: usize, lvl: &mut Level) -> Outer {
         }
         j += 1;
     }
-    let inner = Inner::from_slots(slots);
+    Inner::from_slots(slots)
+}
+
+/// Arbitrary session overlay for name "f" (see `any_inner`), or no entry for the name.
+fn any_current(n: usize, lvl: &mut Level) -> Outer {
+    let inner = any_inner(n, lvl);
     let mut oslots: [Option<(String, Inner)>; CAP] = [const { None }; CAP];
     if n > 0 || kani::any() {
         oslots[0] = Some((fname(), inner));
@@ -1043,6 +1048,161 @@ fn session_history(n: usize, nbase: usize) {
 }
 
 // ------------------------------------------------------------------------------------------
+// C14, iterator level: the sorted merge and the prefix scan on their own (no Arc / Yoke / nested
+// maps around them, so larger sizes are affordable)
+// ------------------------------------------------------------------------------------------
+/// Session-side iterator: strictly ascending (key, Option<value>) pairs.
+struct CIter {
+    n: usize,
+    code: [u8; 3],
+    val: [Option<u8>; 3],
+    pos: usize,
+}
+impl Iterator for CIter {
+    type Item = (Keys, Option<Bytes>);
+    fn next(&mut self) -> Option<Self::Item> {
+        if self.pos >= self.n {
+            return None;
+        }
+        let i = self.pos;
+        self.pos += 1;
+        Some((mk_key(self.code[i]), self.val[i].map(bx)))
+    }
+}
+
+/// The real `QueryIterator` over ANY sorted committed facts and ANY sorted session entries.
+fn merge_case(np: usize, ncur: usize) -> (usize, u8) {
+    let base = any_base(np);
+    let mut cur = CIter {
+        n: ncur,
+        code: [0; 3],
+        val: [None; 3],
+        pos: 0,
+    };
+    let mut lvl: Level = [None; NC];
+    let mut shadow = false;
+    let mut hide = false;
+    let mut i = 0;
+    while i < ncur {
+        cur.code[i] = any_code();
+        if i > 0 {
+            kani::assume(cur.code[i - 1] < cur.code[i]);
+        }
+        let v: u8 = kani::any();
+        cur.val[i] = if kani::any() { Some(v) } else { None };
+        lvl[cur.code[i] as usize] = Some(cur.val[i]);
+        if flat_base(&base)[cur.code[i] as usize].is_some() {
+            shadow = true;
+            if cur.val[i].is_none() {
+                hide = true;
+            }
+        }
+        i += 1;
+    }
+    let want = overlay(&flat_base(&base), &lvl);
+    let prior = VIter {
+        f: base,
+        pos: 0,
+        prefix: 0,
+        live: true,
+    };
+    let mut it = QueryIterator::new(prior, cur);
+    let mut n_want = 0;
+    let mut c = 0;
+    while c < NC {
+        if want[c].is_some() {
+            n_want += 1;
+        }
+        c += 1;
+    }
+    let mut last: Option<u8> = None;
+    let mut got = 0;
+    let mut i = 0;
+    while i < np + ncur {
+        match it.next() {
+            Some(Ok(f)) => {
+                let c = match code_of(&f.key) {
+                    Some(c) => c,
+                    None => {
+                        assert!(false);
+                        return (0, 0);
+                    }
+                };
+                assert!(f.value.len() == 1);
+                assert!(want[c as usize] == Some(f.value[0])); // newest value, never a tombstone
+                if let Some(l) = last {
+                    assert!(l < c); // strictly ascending: sorted, no duplicates
+                }
+                last = Some(c);
+                got += 1;
+                core::mem::forget(f);
+            }
+            Some(Err(_)) => assert!(false),
+            None => {}
+        }
+        i += 1;
+    }
+    assert!(it.next().is_none());
+    assert!(got == n_want);
+    kani::cover!(shadow, "session entry overrides a committed fact with the same key");
+    kani::cover!(hide, "session tombstone hides a committed fact");
+    core::mem::forget(it);
+    (got, 0)
+}
+
+/// The real `PrefixIter` over ANY per-name overlay map and ANY prefix: exactly the entries under
+/// the prefix (tombstones included, they are the merge's business), ascending.
+fn prefix_iter_case(n: usize) -> (usize, u8) {
+    let mut lvl: Level = [None; NC];
+    let inner = any_inner(n, &mut lvl);
+    let pc: u8 = kani::any();
+    kani::assume(pc <= ncode());
+    let mut it = PrefixIter::new(&inner, mk_prefix(pc));
+    let mut n_want = 0;
+    let mut c = 0;
+    while c < NCODE {
+        if lvl[c as usize].is_some() && has_prefix(c, pc) {
+            n_want += 1;
+        }
+        c += 1;
+    }
+    let mut last: Option<u8> = None;
+    let mut got = 0;
+    let mut i = 0;
+    while i < n {
+        if let Some((k, v)) = it.next() {
+            let c = match code_of(&k) {
+                Some(c) => c,
+                None => {
+                    assert!(false);
+                    return (0, 0);
+                }
+            };
+            assert!(has_prefix(c, pc));
+            match (lvl[c as usize], &v) {
+                (Some(None), None) => {}
+                (Some(Some(x)), Some(b)) => assert!(b.len() == 1 && b[0] == x),
+                _ => assert!(false),
+            }
+            if let Some(l) = last {
+                assert!(l < c);
+            }
+            last = Some(c);
+            got += 1;
+            core::mem::forget(k);
+            core::mem::forget(v);
+        }
+        i += 1;
+    }
+    assert!(it.next().is_none());
+    assert!(got == n_want);
+    assert!(PrefixIter::default().next().is_none());
+    core::mem::forget(it);
+    core::mem::forget(inner);
+    (got, pc)
+}
+
+// ------------------------------------------------------------------------------------------
 // proof harnesses (sizes: see checks/C13.json, checks/C14.json)
 // ------------------------------------------------------------------------------------------
 macro_rules! harness {
@@ -1090,3 +1250,14 @@ harness!(c14_action_step_full, false, session_op_case(2, 1, 2, false, false));
 harness!(c14_action_step_prefix, false, session_op_case(2, 1, 1, false, true), 2, "prefix query with two or more results");
 harness!(c14_receive_step_small, false, session_op_case(1, 1, 1, true, false));
 harness!(c14_receive_step_full, false, session_op_case(2, 1, 2, true, false));
+// C14 iterator level
+harness!(c14_merge_iter_small, false, merge_case(2, 2), 2, "merge with two or more results");
+harness!(c14_merge_iter_full, false, merge_case(3, 3), 3, "merge with three or more results");
+harness!(c14_merge_iter_mixed, true, merge_case(3, 3), 4, "compound keys: merge with four or more results");
+harness!(c14_prefix_iter_small, false, prefix_iter_case(3), 2, "two or more entries under the prefix");
+harness!(c14_prefix_iter_mixed, true, prefix_iter_case(3), 2, "compound keys: two or more entries under the prefix");
+// minimal full-stack variants
+harness!(c14_overlay_prefix_min, false, overlay_case(1, 1, true), 1, "prefix query with a result");
+harness!(c14_write_step_min, false, write_case(1, 0, 0, false));
+harness!(c14_action_step_min, false, session_op_case(1, 0, 1, false, false));
+harness!(c14_receive_step_min, false, session_op_case(1, 0, 1, true, false));
